@@ -33,7 +33,7 @@ pub struct ReplayCase {
     pub mutant: MutId,
 }
 
-fn blob_strategy(kind: u8, secret: bool) -> impl Strategy<Value = BlobCase> {
+pub fn blob_strategy(kind: u8, secret: bool) -> impl Strategy<Value = BlobCase> {
     (gens::key_seed(), gens::key_seed(), gens::password()).prop_map(move |(wrapped, wrapping, password)| BlobCase {
         kind,
         secret,
@@ -117,6 +117,11 @@ fn unseal_text<B: Backend>(text: &str, sk: &Key<V<B>, PkeSecret>) -> Result<Vec<
 }
 
 pub fn run_blob<B: Backend>(acc: &mut Acc, c: &BlobCase, filter: Option<&MutId>) {
+    run_blob_opts::<B>(acc, c, filter, false)
+}
+
+/// `relabel_only`: only the control and the header-rewrite mutants (used by C10)
+pub fn run_blob_opts<B: Backend>(acc: &mut Acc, c: &BlobCase, filter: Option<&MutId>, relabel_only: bool) {
     let name = B::NAME;
     let ver = B::VER;
     let kn = kname(c.kind);
@@ -177,6 +182,9 @@ pub fn run_blob<B: Backend>(acc: &mut Acc, c: &BlobCase, filter: Option<&MutId>)
         muts = muts.into_iter().enumerate().filter(|(i, _)| i % step == 0).map(|(_, m)| m).collect();
     }
     let min_len = *bounds.last().unwrap();
+    if relabel_only {
+        muts.clear();
+    }
     for m in muts {
         if !want(&m.id) {
             continue;
@@ -204,7 +212,7 @@ pub fn run_blob<B: Backend>(acc: &mut Acc, c: &BlobCase, filter: Option<&MutId>)
     // other wrapping key / password / recipient
     let mut others: Vec<(MutId, Result<Vec<u8>, PasetoError>)> = Vec::new();
     let mk = |class: &str, pos: usize| MutId { class: class.into(), pos: pos as u32, arg: 0 };
-    match c.kind {
+    match if relabel_only { 9 } else { c.kind } {
         0 => {
             let kb = local_key_bytes(&c.wrapping);
             let mut cands: Vec<(MutId, [u8; 32])> = vec![(mk("key-other", 0), local_key_bytes(&KeySeed::from_u64(hash_of(&c.wrapping) ^ 0x99)))];
@@ -254,6 +262,9 @@ pub fn run_blob<B: Backend>(acc: &mut Acc, c: &BlobCase, filter: Option<&MutId>)
         }
         _ => {
             let id = mk("recipient-other", 0);
+            if c.kind != 2 {
+                // relabel-only mode of a non-PKE blob
+            } else
             if want(&id) {
                 let mut t = 1u64;
                 let mut other = pke_pair::<B>(&KeySeed::from_u64(hash_of(&c.wrapping) ^ 0x77));
@@ -323,10 +334,14 @@ pub fn run_blob<B: Backend>(acc: &mut Acc, c: &BlobCase, filter: Option<&MutId>)
 }
 
 fn replay<B: Backend>(v: &Value, acc: &mut Acc) -> R {
+    replay_opts::<B>(v, acc, false)
+}
+
+pub fn replay_opts<B: Backend>(v: &Value, acc: &mut Acc, relabel_only: bool) -> R {
     let rc: ReplayCase = serde_json::from_value(v.clone()).map_err(|e| Fail::new("HARNESS/replay-decode", format!("{e}")))?;
     rng::reseed_case(hash_of(&rc.blob));
     acc.tier = Tier::Thorough;
-    run_blob::<B>(acc, &rc.blob, Some(&rc.mutant));
+    run_blob_opts::<B>(acc, &rc.blob, Some(&rc.mutant), relabel_only);
     Ok(())
 }
 
